@@ -50,11 +50,13 @@ type FuncContract struct {
 	Inline   bool // never use the contract at call sites; inline the body (only loop-free)
 	Trusted  bool // contract assumed, body not verified (listed in evidence)
 	Pure     bool // no heap writes at all
+	Uninterp bool // specification function treated as uninterpreted; its ensures clauses are its axioms
+	RelPos   []string // "buf a b": a and b are positions inside slice buf (passed to the UF as absolute positions)
 	Line     int
 	File     string
 }
 
-var kwRe = regexp.MustCompile(`^(func|requires|ensures|invariant|decreases|modifies|loop|law|lemma|unroll|inline|trusted|pure|havoc|split)\b`)
+var kwRe = regexp.MustCompile(`^(func|requires|ensures|invariant|decreases|modifies|loop|law|lemma|unroll|inline|trusted|pure|havoc|split|uninterpreted)\b`)
 var tagRe = regexp.MustCompile(`^\[([A-Za-z0-9_, ]+)\]`)
 var labelRe = regexp.MustCompile(`^"([^"]*)"\s*:`)
 
@@ -151,6 +153,11 @@ func parseContracts(file string, src []byte) ([]*FuncContract, error) {
 			last = nil
 		case "pure":
 			cur.Pure = true
+			last = nil
+		case "uninterpreted":
+			cur.Uninterp = true
+			cur.Trusted = true
+			cur.RelPos = strings.Fields(rest)
 			last = nil
 		case "loop":
 			f := strings.SplitN(rest, " ", 2)
